@@ -383,3 +383,15 @@ Proof.
   - intros HL. exact (H1 HL).
   - intros Hpos HL. apply H2; [apply H3; exact Hpos|exact HL].
 Qed.
+
+(* ---------- self-delimitation for recursive values (C14) ---------- *)
+Theorem rec_strict_prefix_fails d F v bs pre suf known :
+  wf_rdef d = true -> ridx_ok d = true -> renc F d v = EOk bs ->
+  bs = pre ++ suf -> suf <> [] ->
+  forall F' v' r, (F <= F')%nat -> runo (rdec F' d) known pre <> OOk v' r.
+Proof.
+  intros Hw Hok He -> Hs F' v' r HF Hd.
+  pose proof (runo_extend _ (rdec F' d) known suf pre v' r Hd) as Hx.
+  pose proof (rec_roundtrip_any_budget d F F' v (pre ++ suf) known [] Hw Hok HF He) as Hr. rewrite app_nil_r in Hr.
+  rewrite Hr in Hx. injection Hx as _ Hx. destruct r; destruct suf; try discriminate. now apply Hs.
+Qed.
